@@ -294,6 +294,9 @@ def execute(item, only=None):
         levels = b["levels"]
         if len(active) > 6 and len(levels) > 4:
             levels = [0, 1 / 3, 2 / 3, 1]
+        if len(active) <= 3:
+            # a transformer with three line-pair classes only: nine levels per class are affordable (729 directions)
+            levels = [k / 8 for k in range(9)]
     capv = {c: 32.0 * len(spec["classes"][c][3]) for c in classes}
     if item["tr"] == "joint" and len(active) > 10:
         # joint block: the two transformers are independent sub-networks; pair-level directions only
